@@ -125,6 +125,8 @@ func runC11(c *Ctx) {
 	c.check(nondetSources["time.Now"] && nondetSources["os.Getenv"], "C11.3", "table:positive-control", "-", "the nondeterminism table is armed", "time.Now and os.Getenv are members")
 
 	ruleLoadedPackageReadOnly(c, "C11.8")
+	rulePackageLoadedPerFile(c, "C11.9")
+	ruleOutputOpenedLast(c, "C11.10")
 
 	// ---- C11.4 deterministic field order
 	if fn := genFn(c, "C11.4", "extractExportedFields"); fn != nil {
